@@ -338,6 +338,14 @@ theorem sws_pos (l : L) (hp : l.pos < l.inp.size) (hb : blank (some (decodeRune 
   simp only [skipWhiteSpace.loop, hb, Bool.false_eq_true, if_false, L.backup]
   simp
 
+/-- … and returns true -/
+theorem sws_true (l : L) (hp : l.pos < l.inp.size) (hb : blank (some (decodeRune l.inp l.pos).1) = false) :
+    (skipWhiteSpace l).2 = true := by
+  have hn : ¬ l.pos ≥ l.inp.size := by omega
+  simp only [skipWhiteSpace, L.next, hn, if_false]
+  rw [show l.inp.size + 2 = (l.inp.size + 1) + 1 from rfl]
+  simp only [skipWhiteSpace.loop, hb, Bool.false_eq_true, if_false]
+
 theorem peek1_eq (l : L) : l.peek 1 = (l.next).2 := by
   unfold L.peek L.next
   by_cases h : l.pos ≥ l.inp.size <;> simp [h]
